@@ -80,6 +80,7 @@ def space(tier):
         if geom == 8:  # convert-accfg-to-csr takes the accelerator from the registry (default geometry)
             for kern in ("qmac_rescale2N", "qmac_rescale3N", "qmac_rescale4N"):
                 cases.append(("gemmx", geom, kern, 0))
+                cases.append(("gemmx", geom, kern, 3))  # var 3: two tiles with dedup in between (see gemmx_launch_level)
     for chan, byte in itertools.product([True, False], repeat=2):
         subsets = [(), (0,), (5,), (3, 4), tuple(range(7))]
         if tier == "thorough":
@@ -298,6 +299,9 @@ def eval_gemmx(r, geom, kern, var):
     acc = GX.SNAXGEMMXAccelerator(GX.default_streamer, m=geom, n=geom, k=geom)
     decl = common.to_text(acc.generate_acc_op())
     sts = list(acc.streamer_config.data.streamers)
+    var_in = var
+    if var == 3:
+        var = 0  # two-tile variant of the channel-group kernels: same patterns as var 0
     groups = {"qmac_rescale2N": 2, "qmac_rescale3N": 3, "qmac_rescale4N": 4}.get(kern, 0)
     i8 = kern in ("qmac_i8", "qmac_rescale1", "qmac_rescaleN", "rescale_only") or groups
     # patterns per streamer a, b, d8, c, d32
@@ -360,10 +364,10 @@ def eval_gemmx(r, geom, kern, var):
     if kern == "rescale_only":
         pats = [(pa[0][:3], [0] * 3, [8]), (pa[0][:3], [0] * 3, [8]), (pa[0][:3], pa[1][:3], [8]), (pa[0][:3], [t + 8 for t in pa[1][:3]], [8, 64]), empty32]
     text = region_text("snax_gemmx", decl, 5, 3 if kern != "rescale_only" else None, pats, 5, 0, body, extra)
-    key = f"gemmx|{geom}|{kern}|{var}"
-    case_j = dict(kind="gemmx", geom=geom, kern=kern, var=var)
+    key = f"gemmx|{geom}|{kern}|{var_in}"
+    case_j = dict(kind="gemmx", geom=geom, kern=kern, var=var_in)
     res = run_convert(acc, text, key, case_j, r)
-    r.obs = ("gemmx", geom, kern, var)
+    r.obs = ("gemmx", geom, kern, var_in)
     r.states = 1
     r.sample = dict(kind="gemmx", n=geom, kernel=kern, patterns=[pat_text(*p) for p in pats])
     if res is None:
@@ -421,22 +425,29 @@ def eval_gemmx(r, geom, kern, var):
             kexp[f"mult_{i}"] = mults[i]
     compare(r, key, case_j, names, vals, kexp, f"snax_gemmx n={geom} {kern} kernel registers")
     if groups and not r.violations:
-        gemmx_launch_level(r, acc, key, case_j, geom, groups, rs, kexp["M"])
+        if var_in == 0:
+            gemmx_launch_level(r, acc, key, case_j, geom, groups, rs, kexp["M"])
+        else:
+            gemmx_launch_level(r, acc, key, case_j, geom, groups, rs, kexp["M"], tiles=2)
 
 
-def gemmx_launch_level(r, acc, key, case_j, geom, groups, rs, m_total):
+def gemmx_launch_level(r, acc, key, case_j, geom, groups, rs, m_total, tiles=1):
     """channel groups: after the real convert-accfg-to-csr the code must launch the streamers once and the array once per group; at the i-th array launch the
     shift / multiplier registers hold group i's values and M / temporal_loop_bound the per-group tile count; every array launch is awaited"""
     from machines.csr import CsrMachine
 
     mod = _LAST_MODULE[0]
-    # the real convert-linalg-to-accfg replaces the streaming region by the accelerator ops; run_convert inserted them in front of it
+    # the real convert-linalg-to-accfg replaces the streaming region by the accelerator ops; run_convert inserted them in front of it.
+    # tiles = 2: the same operation twice in a row (second tile), with cse + state tracing + dedup in front of the CSR lowering, so that
+    # the second setup only carries what the compiler believes has changed
     for op in list(mod.walk()):
         if op.name == "snax_stream.streaming_region":
+            if tiles == 2:
+                op.parent_block().insert_ops_before(list(acc.convert_to_acc_ops(op)), op)
             op.detach()
             op.erase()
     try:
-        common.run_pipeline(mod, "convert-accfg-to-csr")
+        common.run_pipeline(mod, ("cse,accfg-trace-states,accfg-dedup," if tiles == 2 else "") + "convert-accfg-to-csr")
     except Exception as e:
         r.count("launch_level_rejected:" + type(e).__name__ + ":" + str(e)[:60])
         return
@@ -462,8 +473,8 @@ def gemmx_launch_level(r, acc, key, case_j, geom, groups, rs, m_total):
             if ev[1] == laddr["launch_gemmx"]:
                 launches.append(dict(regs))
             elif ev[1] == laddr["launch_streamer"]:
-                if launches:
-                    r.violate(key + "|launch-order", case_j, "the streamers are launched after the first array launch")
+                if len(launches) != streamer_launches * groups:
+                    r.violate(key + "|launch-order", case_j, f"streamer launch {streamer_launches} comes after {len(launches)} array launches")
                     return
                 streamer_launches += 1
             else:
@@ -471,14 +482,15 @@ def gemmx_launch_level(r, acc, key, case_j, geom, groups, rs, m_total):
         elif ev[0] == "r" and ev[1] == barrier and ev[2] == 0 and len(launches) > awaited:
             awaited = len(launches)
     bad = None
-    if len(launches) != groups:
-        bad = f"{len(launches)} array launches for {groups} channel groups"
-    elif streamer_launches != 1:
-        bad = f"{streamer_launches} streamer launches"
-    elif awaited != groups:
-        bad = f"only {awaited} of {groups} array launches are followed by an await"
+    if len(launches) != groups * tiles:
+        bad = f"{len(launches)} array launches for {groups} channel groups x {tiles} tiles"
+    elif streamer_launches != tiles:
+        bad = f"{streamer_launches} streamer launches for {tiles} tiles"
+    elif awaited != groups * tiles:
+        bad = f"only {awaited} of {groups * tiles} array launches are followed by an await"
     else:
-        for i, snap in enumerate(launches):
+        for j, snap in enumerate(launches):
+            i = j % groups
             sh, mu = rs["shift"][i * geom : (i + 1) * geom], rs["mult"][i * geom : (i + 1) * geom]
             want = {f"mult_{j}": mu[j] for j in range(geom)}
             for j in range(0, geom, 4):
@@ -486,12 +498,12 @@ def gemmx_launch_level(r, acc, key, case_j, geom, groups, rs, m_total):
             want["M"] = want["temporal_loop_bound"] = m_total // groups
             for name, v in want.items():
                 if wrap(snap.get(addr[name], None) or 0, 32) != wrap(v, 32):
-                    bad = f"at array launch {i} register {name} holds {snap.get(addr[name])} but group {i} needs {v}"
+                    bad = f"at array launch {j} (tile {j // groups}, group {i}) register {name} holds {snap.get(addr[name])} but group {i} needs {v}"
                     break
             if bad:
                 break
     if bad:
-        r.violate(key + "|launch-groups", case_j, f"snax_gemmx n={geom}, {groups} channel groups: {bad}")
+        r.violate(key + f"|launch-groups{tiles}", case_j, f"snax_gemmx n={geom}, {groups} channel groups, {tiles} tile(s): {bad}")
 
 
 # ------------------------------------------------------------------------------------------------ legacy linalg.generic lowerings (snax_hwpe_mult, snax_alu)
